@@ -265,7 +265,13 @@ pub fn template(r: &mut Rng, which: usize) -> Tmpl {
         5 => {
             // almost_swapped
             let (a, b) = *r.pick(&[("a", "b"), ("t.x", "t.y"), ("t[1]", "t[2]"), ("a.b.c", "d"), ("t[k]", "u[k]"), ("a", "t.a")]);
-            match r.below(12) {
+            // any statement between the two halves — whatever its targets look like — means they are no swap attempt
+            let between = *r.pick(&[
+                "t[f()] = 1", "f().x = 1", "f()[g()] = h()", "t[f()], u = 1, 2", "local z = 1", "z = w", "t.k = 1", "do end",
+                "q, p = 1, 2", "f().x, y = 1, 2", "while false do end", "z = f()",
+            ]);
+            match r.below(14) {
+                12 | 13 => t("almost_swapped", "separated-by-statement", false, format!("{a} = {b}\n{between}\n{b} = {a}")),
                 0 | 1 => t("almost_swapped", "swap", true, format!("{a} = {b}\n{b} = {a}")),
                 2 => t("almost_swapped", "swap-trivia", true, "t . x = t.y -- c\nt.y = t --[[c]] .x".to_owned()),
                 3 => t("almost_swapped", "swap-after-assignment", true, format!("x = y\n{a} = {b}\n{b} = {a}")),
